@@ -678,6 +678,10 @@ func (c15) Case(c *core.Ctx) {
 		// decoders and encoders are total under every option combination, not only the defaults
 		cfg := GenCfg(r, true, true)
 		cfg.Apply()
+		if r.Intn(3) == 0 {
+			// an attribute prefix longer than most keys (every place that slices a key by the prefix length)
+			mxj.SetAttrPrefix([]string{"attr_", "Attr_", "@@@@", "__attr__", "-----"}[r.Intn(5)])
+		}
 		mxj.XMLEscapeChars(r.Intn(2) == 0 && !cfg.DecEsc)
 		mxj.XmlCheckIsValid(r.Intn(4) == 0)
 		if r.Intn(4) == 0 {
